@@ -23,7 +23,7 @@ TRUSTED = [
     'that every rank derives the same inverse assignment is a statement about the code: checked by the tie for every local rank, not proved',
 ]
 THEOREMS = ['grid_of_world', 'cols_partition', 'rows_partition', 'row_col_singleton', 'inv_workers_in_one_column',
-            'src_is_worker_in_my_row', 'broadcast_flags', 'fraction_accepted_partial']
+            'src_is_worker_in_my_row', 'broadcast_flags', 'fraction_accepted_partial', 'kaisa_function_in_relation']
 NOTES = ('fraction_accepted_partial is the bounded form (W <= 4096) of "every k/W is accepted"; the unbounded '
          'statement over IEEE rounding error is not proved.')
 
